@@ -1,15 +1,32 @@
 #!/venv/bin/python
 """
-C13 constant re-extracted from the CURRENT tree on every run -> lean/Ptk/Gen/C13.lean:
+C13 constants re-extracted from the CURRENT tree on every run -> lean/Ptk/Gen/C13.lean.
+All of them are determined by BEHAVIOUR, not by looking at the source text.
 
   notifyCopies : does the loader thread of ThreadedHistory iterate over a COPY of
-  `_string_load_events` when it sets the consumers' events (so that an event removed from the
-  list by a finishing load() call cannot make the iteration skip the next one)?
+      `_string_load_events` when it sets the consumers' events (so that an event removed from the
+      list by a finishing load() call cannot make the iteration skip the next one)?
+      `_in_load_thread` is run synchronously with two fake events registered, the first of which
+      unregisters itself when it is set; with a plain iteration over the live list the second fake
+      event is never set.  The multi-consumer model `stepN` takes this flag.
 
-It is determined by behaviour, not by looking at the source text: `_in_load_thread` is run
-synchronously with two fake events registered, the first of which unregisters itself when it is
-set; with a plain iteration over the live list the second fake event is never set.
-The multi-consumer model `stepN` takes this flag; the theorems cover both values.
+  appendFixed : does ThreadedHistory contain the repair of F5 (proposed_fixes/C13-threaded-append.diff)?
+      three observations, all must hold:
+        (1) `_in_load_thread` holds `_lock` while the inner history takes its snapshot
+            (the inner generator looks at `lock.locked()` when its first item is requested),
+        (2) `append_string` holds `_lock` while it calls the inner `store_string`,
+        (3) a `load()` call in progress skips an entry inserted at the front meanwhile and
+            yields it once at the end (driven through the real async generator with a manual event).
+      `appendFixed` = all three.  The harness (c13.py) compares the tree with the repaired model `stepF` /
+      `stepM` as soon as observation (1) holds - a tree with only a part of the repair then fails against
+      the full repair - and with `step` (code with F5) otherwise; in that case `stepF` / `stepM` are compared
+      with the tree's history.py + the proposed diff.
+
+  inlineCopies : does the inline generator `History.load()` iterate over a copy of `_loaded_strings`
+      (an `append_string` between two items then does not make it yield an item twice)?
+
+  storeWrites : how many `write()` calls FileHistory.store_string issues on its file object for a
+      3-line entry (4 = header + one per line; 1 = the whole record in one call).
 """
 from __future__ import annotations
 
@@ -39,19 +56,167 @@ def probe() -> bool:
     return bool(e2.flag)
 
 
+def _probe_locks(mod):
+    """(the inner snapshot is taken inside the lock, the inner store_string is called inside the lock)"""
+    seen = {}
+
+    class Inner(mod.History):
+        def load_history_strings(self):
+            seen["snap"] = th._lock.locked()
+            yield "x"
+
+        def store_string(self, string):
+            seen["store"] = th._lock.locked()
+
+    th = mod.ThreadedHistory(Inner())
+    th._in_load_thread()
+    th.append_string("y")
+    return bool(seen.get("snap")), bool(seen.get("store"))
+
+
+def _probe_consumer_shift(mod) -> bool:
+    """strs = [b, a], not loaded; the consumer takes both; then 'c' is appended and loading ends:
+    the repaired consumer yields b, a, c - the unrepaired one b, a, a"""
+    import asyncio
+
+    class Inner(mod.History):
+        def load_history_strings(self):
+            return []
+
+        def store_string(self, string):
+            pass
+
+    th = mod.ThreadedHistory(Inner())
+    th._load_thread = object()  # "already started": load() must not start a real thread
+    th._loaded_strings = ["b", "a"]
+    out = []
+
+    async def go():
+        gen = th.load()
+        out.append(await gen.__anext__())
+        out.append(await gen.__anext__())
+        th.append_string("c")
+        with th._lock:
+            th._loaded = True
+        for e in list(th._string_load_events):
+            e.set()
+        async for x in gen:
+            out.append(x)
+
+    asyncio.run(asyncio.wait_for(go(), timeout=10))
+    return out == ["b", "a", "c"]
+
+
+def probe_append_parts(mod=None) -> dict:
+    """the three observable parts of the repair of F5"""
+    res = {"snapshot": False, "store": False, "shift": False}
+    try:
+        if mod is None:
+            import prompt_toolkit.history as mod
+        res["snapshot"], res["store"] = _probe_locks(mod)
+    except Exception:
+        pass
+    try:
+        res["shift"] = _probe_consumer_shift(mod)
+    except Exception:
+        pass
+    return res
+
+
+def probe_append_fixed(mod=None) -> bool:
+    return all(probe_append_parts(mod).values())
+
+
+def probe_inline_copies(mod=None) -> bool:
+    """does the inline `History.load()` iterate over a copy of `_loaded_strings`?  InMemoryHistory(a, b):
+    take one item, append c, take the rest: over a copy -> b, a; over the live list -> b, b, a"""
+    import asyncio
+
+    try:
+        if mod is None:
+            import prompt_toolkit.history as mod
+
+        async def go():
+            h = mod.InMemoryHistory(["a", "b"])
+            g = h.load()
+            out = [await g.__anext__()]
+            h.append_string("c")
+            async for x in g:
+                out.append(x)
+            return out
+
+        return asyncio.run(go()) == ["b", "a"]
+    except Exception:
+        return False
+
+
+def probe_store_writes(mod=None) -> int:
+    """number of write() calls on the file object for one store_string of a 3-line entry"""
+    import io
+    import os
+    import tempfile
+
+    try:
+        if mod is None:
+            import prompt_toolkit.history as mod
+        calls = []
+        real_open = open
+
+        class Rec(io.RawIOBase):
+            def writable(self):
+                return True
+
+            def write(self, b):
+                calls.append(bytes(b))
+                return len(b)
+
+        def fake_open(file, mode="r", *a, **k):
+            if "a" in mode and "b" in mode:
+                return io.BufferedWriter(Rec(), buffer_size=1)  # every write() call reaches the raw file
+            return real_open(file, mode, *a, **k)
+
+        had = "open" in mod.__dict__
+        old = mod.__dict__.get("open")
+        mod.open = fake_open
+        try:
+            d = tempfile.mkdtemp(prefix="c13probe")
+            mod.FileHistory(os.path.join(d, "h")).store_string("l1\nl2\nl3")
+            os.rmdir(d)
+        finally:
+            if had:
+                mod.open = old
+            else:
+                del mod.open
+        return len(calls)
+    except Exception:
+        return 0
+
+
 def generate() -> None:
     try:
         copies = probe()
     except Exception:  # broken tree: keep the model compilable, the correspondence reports it
         copies = False
+    fixed = probe_append_fixed()
+    writes = probe_store_writes()
+    inline = probe_inline_copies()
     body = "namespace Ptk.Gen.C13\n\n"
     body += ("/-- the loader thread's `for event in …: event.set()` loops run over a copy of\n"
              "    `_string_load_events` (observed by running `_in_load_thread` with self-removing events) -/\n")
     body += f"def notifyCopies : Bool := {'true' if copies else 'false'}\n\n"
+    body += ("/-- ThreadedHistory contains the repair of F5: snapshot and store under the lock, the consumer\n"
+             "    skips front insertions and yields them once at the end (observed on the running code) -/\n")
+    body += f"def appendFixed : Bool := {'true' if fixed else 'false'}\n\n"
+    body += ("/-- number of `write()` calls FileHistory.store_string issues for a 3-line entry\n"
+             "    (4 = header + one per line; 1 = the whole record at once; 0 = probe failed) -/\n")
+    body += f"def storeWrites : Nat := {writes}\n\n"
+    body += ("/-- the inline `History.load()` generator iterates over a copy of `_loaded_strings` (observed:\n"
+             "    an append between two items does not shift what it yields) -/\n")
+    body += f"def inlineCopies : Bool := {'true' if inline else 'false'}\n\n"
     body += "end Ptk.Gen.C13\n"
     G.write("C13.lean", body)
 
 
 if __name__ == "__main__":
     generate()
-    print(probe())
+    print(probe(), probe_append_fixed(), probe_store_writes(), probe_inline_copies())
